@@ -444,6 +444,16 @@ def run(ctx):
             if not q['with_start']:
                 q['T1'] = ref.rt2tr(Q, ti()) if se else Q
             drive(RUNNERS, ctx, 'mat', q)
+            if se:
+                # the same in unsigned and 8-bit element types (rotations without negative entries: identity and the cyclic
+                # permutations; translations whose difference is negative or leaves the type)
+                cyc = [np.eye(3), np.eye(3)[[1, 2, 0]], np.eye(3)[[2, 0, 1]]]
+                ut = rng.integers(2)
+                tn = (lambda: rng.integers(0, 201, size=3).astype(float)) if ut else (lambda: rng.integers(-100, 101, size=3).astype(float))
+                Pa, Pb = cyc[rng.integers(3)], cyc[rng.integers(3)]
+                q2 = dict(api='base.trinterp', T0=ref.rt2tr(Pa, tn()), T1=ref.rt2tr(Pb, tn()), with_start=True, svals=svals(rng),
+                          bad_s=[BAD_S[rng.integers(len(BAD_S))]], itype=[['uint8', 'uint8'], ['uint16', 'uint8']][rng.integers(2)] if ut else ['int8', 'int8'])
+                drive(RUNNERS, ctx, 'mat', q2)
         if ctx.ncases % 499 == 1:
             ctx.sample(dict(case='mat', **{k: v for k, v in p.items()}), limit=4)
     for _ in range(ctx.scale(1400, 40000)):
